@@ -100,10 +100,12 @@ fn main() -> Result<(), Box<dyn std::error::Error>> {
         for i in 0..=ref_boundaries.len() {
             ref_tags.push(s.tags()[i * s.n_tags()..(i + 1) * s.n_tags()].to_vec());
         }
-        if !args.no_norm {
-            let new_line = fullwidth_filter.filter(s.as_raw_text());
-            s = Sentence::from_raw(new_line)?
+        let new_line = if args.no_norm {
+            s.as_raw_text().to_string()
+        } else {
+            fullwidth_filter.filter(s.as_raw_text())
         };
+        s = Sentence::from_raw(new_line)?;
         predictor.predict(&mut s);
         post_filters.iter().for_each(|filter| filter.filter(&mut s));
         if args.predict_tags {
